@@ -107,6 +107,13 @@ def centre2 (ncol : Nat) (t : Array Int) (i : Nat) : Int × Int :=
 
 /-! ### `subgrid.segment_indices` (used by `streams(idxs_out=...)`) -/
 
+/-- the `break` condition at the top of the loop body: no next cell, pit, next cell masked out, or
+`max_len` vertices collected (`len = len(idxs)`) -/
+def segStop (nxt : Array Nat) (mask : Option (Array Bool)) (maxLen : Nat) (idx len : Nat) : Bool :=
+  nxt[idx]! = nxt.size || nxt[idx]! == idx || (match mask with
+    | none => false
+    | some m => !m[nxt[idx]!]!) || (decide (maxLen > 0) && len == maxLen)
+
 /-- inner `while True`; returns `(idxs, pit, idx1)` -/
 def segWalk (nxt : Array Nat) (outlets : Array Bool) (mask : Option (Array Bool)) (maxLen : Nat) :
     Nat → Nat → List Nat → Option (List Nat × Bool × Nat)
@@ -114,24 +121,30 @@ def segWalk (nxt : Array Nat) (outlets : Array Bool) (mask : Option (Array Bool)
   | fuel+1, idx, acc =>
     let idx1 := nxt[idx]!
     let pit := idx1 == idx
-    if idx1 = nxt.size || pit || (match mask with
-        | none => false
-        | some m => !m[idx1]!) || (decide (maxLen > 0) && acc.length == maxLen) then
+    if segStop nxt mask maxLen idx acc.length then
       some (acc.reverse, pit, idx1)
     else if outlets[idx1]! then some ((idx1 :: acc).reverse, pit, idx1)
     else segWalk nxt outlets mask maxLen fuel idx1 (idx1 :: acc)
 
+/-- the temporary boolean array with the outlets -/
+def segOutlets (idxsOut : List Nat) (n : Nat) : Array Bool :=
+  idxsOut.foldl (fun o i => if i ≠ n then o.setIfInBounds i true else o) (Array.replicate n false)
+
+/-- what one outlet appends: the segment if it has more than one vertex, the zero-length feature at a pit -/
+def segFeatures (r : List Nat × Bool × Nat) : List (List Nat) :=
+  (if r.1.length > 1 then [r.1] else []) ++ (if r.2.1 then [[r.2.2, r.2.2]] else [])
+
+/-- body of `for i in range(idxs_out.size)` -/
+def segStep (nxt : Array Nat) (outlets : Array Bool) (mask : Option (Array Bool)) (maxLen : Nat)
+    (out : List (List Nat)) (idx0 : Nat) : Option (List (List Nat)) :=
+  if idx0 = nxt.size then some out
+  else match segWalk nxt outlets mask maxLen (nxt.size + 1) idx0 [idx0] with
+    | none => none
+    | some r => some (out ++ segFeatures r)
+
 def segmentIndices (idxsOut : List Nat) (nxt : Array Nat) (mask : Option (Array Bool)) (maxLen : Nat) :
     Option (List (List Nat)) :=
-  let outlets := idxsOut.foldl (fun o i => if i ≠ nxt.size then o.setIfInBounds i true else o)
-    (Array.replicate nxt.size false)
-  idxsOut.foldlM (fun out idx0 =>
-    if idx0 = nxt.size then some out
-    else match segWalk nxt outlets mask maxLen (nxt.size + 1) idx0 [idx0] with
-      | none => none
-      | some (idxs, pit, idx1) =>
-        some (out ++ (if idxs.length > 1 then [idxs] else []) ++ (if pit then [[idx1, idx1]] else [])))
-    []
+  idxsOut.foldlM (segStep nxt (segOutlets idxsOut nxt.size) mask maxLen) []
 
 /-! ### the declarative certificate `StreamsOK` -/
 
